@@ -538,6 +538,27 @@ func (e *Eng) alloc(st *State, name string) string {
 	if len(st.allocs) > 0 {
 		st.assume("(distinct " + r + " " + strings.Join(st.allocs, " ") + ")")
 	}
+	// a fresh allocation differs from every reference held in a variable
+	var held []string
+	seen := map[string]bool{}
+	for _, o := range sortedObjs(st.vars) {
+		v := st.vars[o]
+		t := ""
+		switch v.K {
+		case KSlice:
+			t = v.Ref
+		case KRef:
+			t = v.T
+		}
+		if t == "" || isLiteralTerm(t) || seen[t] || len(t) > 200 || strings.HasPrefix(t, "new.") {
+			continue
+		}
+		seen[t] = true
+		held = append(held, "(not (= "+r+" "+t+"))")
+	}
+	if len(held) > 0 && len(held) <= 24 {
+		st.assume("(and " + strings.Join(held, " ") + ")")
+	}
 	st.allocs = append(st.allocs, r)
 	return r
 }
